@@ -1,12 +1,13 @@
 #!/usr/bin/env python3
-# maps a property id to the harness binary (build variant) that decides it
-import sys
-V = {
- "free": ["C01","C02","C03","C04","C05","C06","C07","C08","C09","C10","C11","C12","C13","C14","C15","C16","C17","C18","C19","C20",
-          "C24","C25","C26","C27","C28","C29","C30","C31","C32"],
- "q": ["C22"], "pipe": ["C21"], "iter": ["C23"],
-}
-for v, ps in V.items():
-    if sys.argv[1] in ps:
-        print(v); sys.exit(0)
-sys.exit(1)
+# maps a property id to the harness binary (build variant) that decides it:
+# a dedicated h/cmd/<id lower-case> if present, else the table, else the shared "free" binary.
+import sys, os
+p = sys.argv[1]
+root = os.environ.get("VERIF_ROOT", "/verif")
+V = {"C22": "q", "C21": "pipe"}
+if os.path.isdir(os.path.join(root, "h/cmd", p.lower())):
+    print(p.lower())
+elif p in V:
+    print(V[p])
+else:
+    print("free")
